@@ -368,7 +368,9 @@ func runC13Client(c *ev.Case, ctx *lib.Ctx, sc c13Script) {
 // `errs` consecutive DWR writes (nothing accepted, temporary error) starting with
 // the k-th. A responsive peer must not be closed, and the watchdog must go on.
 func runC13WriteFaults(c *ev.Case, ctx *lib.Ctx, N, k, errs int) {
-	sig := func(op string) ev.Sig { return ev.Sig{"op": op, "pattern": "answer-all", "schedule": "temporary-write-errors"} }
+	sig := func(op string) ev.Sig {
+		return ev.Sig{"op": op, "pattern": "answer-all", "schedule": "temporary-write-errors"}
+	}
 	W, R := 5*time.Second, time.Second
 	settings := &sm.Settings{OriginHost: "cli.local", OriginRealm: "realm.local", VendorID: 13, ProductName: "verif",
 		HostIPAddresses: []datatype.Address{datatype.Address([]byte{192, 0, 2, 9})}}
